@@ -77,10 +77,22 @@ MIRROR = {
 # --------------------------------------------------------------------------
 # building biotite objects from plain data
 # --------------------------------------------------------------------------
-def _fit_dtype(dtype, n):
+F3 = "C02-F3"
+_NO_FIT = [False]  # set by the reproducer of C02-F3
+
+
+def _fit_dtype(dtype, n, o=None):
     """8 bit dtypes cannot hold the indices of long lists (histories grow by
-    concatenation): widen deterministically."""
+    concatenation): widen deterministically.
+
+    Open finding C02-F3: an index array whose dtype can hold every index but not the atom count
+    itself (int8 and 100 < n, e.g. n = 128) makes BondList.__getitem__ raise OverflowError; such
+    arrays are given in the next wider dtype while the finding is open (counted)."""
+    if _NO_FIT[0]:
+        return dtype
     if n > 100 and dtype in ("int8", "uint8"):
+        if o is not None and findings.is_open(F3):
+            o.exclude(F3)
         return "int16" if dtype == "int8" else "uint16"
     return dtype
 
@@ -549,7 +561,10 @@ def _apply(o, st_, op):
     elif name in ("index_array", "index_list"):
         _, picks, neg_bits, full, dtype, layout = op
         sel = _select(picks, full, n)
-        dtype = _fit_dtype(dtype, n)
+        fitted = _fit_dtype(dtype, n)
+        if fitted != dtype and name == "index_array" and findings.is_open(F3):
+            st_.excluded.append(F3)
+        dtype = fitted
         signed = dtype in SIGNED or name == "index_list"
         given = _with_negatives(sel, neg_bits, n) if signed else list(sel)
         if any(x < 0 for x in given):
@@ -608,6 +623,7 @@ def _size_label(n):
 
 def run_history(case):
     o = Outcome()
+    _NO_FIT[0] = bool(case.get("no_fit"))
     real, model = _build(case["init"], case["n"])
     st_ = _State(real, model)
     st_.ctor_dups = model.ctor_collisions
@@ -1000,9 +1016,15 @@ def bondlist_noncontiguous_mask(sub, case, clause, message):
     return any(op[0] == "index_mask" and op[3] != "C" for op in case["ops"])
 
 
+def bondlist_index_array_dtype_narrower_than_atom_count(sub, case, clause, message):
+    """C02-F3: index array whose integer dtype cannot hold the atom count."""
+    return clause == "unexpected_exception" and "OverflowError" in message and "_to_positive_index_array" in message
+
+
 FINDINGS = {
     "bondlist_index_below_minus_n": bondlist_index_below_minus_n,
     "bondlist_noncontiguous_mask": bondlist_noncontiguous_mask,
+    "bondlist_index_array_dtype_narrower_than_atom_count": bondlist_index_array_dtype_narrower_than_atom_count,
 }
 
 SUBS = [
